@@ -1024,6 +1024,31 @@ pub fn open_handle_probes<V: VirtualFileSystem>(backend: &str, fs: &V, dir: &str
         if !fin.starts_with('0') || !fin.ends_with("bb") {
             v.push((format!("{} two append handles · the later handle's bytes are not at the end / the first byte changed", backend), format!("write_all(f, \"0\"); h1 = append(f); h2 = append(f); h1 writes \"aaa\", drop; h2 writes \"bb\", drop -> read_all(f) = {:?}", fin)));
         }
+        // (4) a handle that outlives its file: removing or moving the file while the handle is open and dropping
+        // the handle afterwards does not bring the old name back (a removed file stays removed; a moved file
+        // does not reappear at its source)
+        for how in ["remove", "move_p"] {
+            for kind in ["write", "append"] {
+                let _ = fs.remove(&g);
+                fs.write_all(&f, b"old").map_err(e)?;
+                let mut h = if kind == "write" { fs.write(&f).map_err(e)? } else { fs.append(&f).map_err(e)? };
+                h.write_all(b"new").map_err(|x| x.to_string())?;
+                h.flush().map_err(|x| x.to_string())?;
+                h.write_all(b"er").map_err(|x| x.to_string())?;
+                if how == "remove" {
+                    fs.remove(&f).map_err(e)?;
+                } else {
+                    fs.move_p(&f, &g).map_err(e)?;
+                }
+                drop(h);
+                if fs.exists(&f) {
+                    v.push((
+                        format!("{} {} handle outliving its file · the name is back after the handle was dropped", backend, kind),
+                        format!("write_all(f, \"old\"); h = {}(f); h writes; {}; drop(h) -> exists(f) = true, read_all(f) = {:?}", kind, if how == "remove" { "remove(f)" } else { "move_p(f, g)" }, rd(&f)),
+                    ));
+                }
+            }
+        }
         let _ = fs.remove(&f);
         let _ = fs.remove(&g);
         Ok(v)
